@@ -175,11 +175,11 @@ def main(run):
                               key=(desc, tuple(writes))))
         for what, c, m in run.differential(cases):
             run.violation(what, {"call": c["cmd"][:4000], "implementation": c["impl"][:4000], "model": m[:4000]})
-        if not run.violations:
+        if not run.concrete():
             drift = bool(getattr(run, "drift", []))
             for _ in range(3 if not (run.thorough or drift) else 25):
                 streaming_scenario(run, rng, cycles=4 if not drift else 12)
-                if run.violations:
+                if run.concrete():
                     break
     else:
         run.proof_ok = False
